@@ -23,6 +23,7 @@ import (
 	"sort"
 	"strings"
 	"sync"
+	"time"
 
 	"github.com/dolthub/go-mysql-server/sql"
 	"github.com/sirupsen/logrus"
@@ -97,12 +98,14 @@ type world struct {
 	force     bool
 	skipErr   bool
 	down      bool
+	async     bool // dolt_async_replication: pushes are flushed by a background thread; the driver waits at a barrier
+	nmark     int
 }
 
 func (w *world) primaryVars() {
 	name := map[string]string{"good": "backup1", "unknown": "nosuch", "none": ""}[w.cfgRemote]
 	setGlobals(map[string]any{dsess.ReplicateToRemote: name, dsess.ReadReplicaRemote: "", dsess.ReplicateAllHeads: int8(0),
-		dsess.ReplicateHeads: "", dsess.SkipReplicationErrors: int8(0)})
+		dsess.ReplicateHeads: "", dsess.SkipReplicationErrors: int8(0), dsess.AsyncReplication: b2i(w.async)})
 }
 
 func b2i(b bool) int8 {
@@ -125,13 +128,13 @@ func (w *world) replicaVars() {
 	setGlobals(m)
 }
 
-func newWorld() (*world, error) {
+func newWorld(async bool) (*world, error) {
 	dir, err := os.MkdirTemp(os.Getenv("VERIF_WORK"), "c45-repl-")
 	if err != nil {
 		return nil, err
 	}
 	w := &world{dir: dir, remoteDir: filepath.Join(dir, "remote"), commits: map[int]string{}, byHash: map[string]int{},
-		cfgRemote: "good", mode: "all", force: true}
+		cfgRemote: "good", mode: "all", force: true, async: false}
 	os.MkdirAll(w.remoteDir, 0o755)
 	url := "file://" + w.remoteDir
 	// primary
@@ -168,6 +171,7 @@ func newWorld() (*world, error) {
 	if err != nil {
 		return nil, err
 	}
+	w.async = async
 	w.primaryVars()
 	if w.prim, err = sqlh.ServerForEnv(context.Background(), pe, filepath.Join(dir, "db")); err != nil {
 		return nil, err
@@ -187,7 +191,69 @@ func newWorld() (*world, error) {
 		return nil, err
 	}
 	sink.take()
+	if w.async {
+		// the branch the flush barrier commits to; it is filtered out of every projection
+		w.primaryVars()
+		w.ps.MustExec("call dolt_checkout('main')")
+		w.ps.MustExec("call dolt_branch('zzsync','main')")
+		if err := w.barrier(); err != nil {
+			return w, err
+		}
+	}
 	return w, nil
+}
+
+// barrier waits until the asynchronous pusher has flushed everything enqueued so far: two marker commits on the branch
+// zzsync, each awaited on the remote (the second is enqueued after the first arrived, so the batch that carried the
+// first - and everything enqueued before it - is complete).  A missed bound is inconclusive, never a mismatch.
+func (w *world) barrier() error {
+	for k := 0; k < 2; k++ {
+		w.primaryVars()
+		w.nmark++
+		if err := w.ps.Exec("call dolt_checkout('zzsync')"); err != nil {
+			return err
+		}
+		if err := w.ps.Exec(fmt.Sprintf("call dolt_commit('--allow-empty','-m','marker %d')", w.nmark)); err != nil {
+			return err
+		}
+		h, err := w.headOf(w.ps, "zzsync")
+		if err != nil {
+			return err
+		}
+		ok := false
+		for i := 0; i < 600 && !ok; i++ {
+			if hs, err := w.rawRemoteHead("zzsync"); err == nil && hs == h {
+				ok = true
+			} else {
+				time.Sleep(50 * time.Millisecond)
+			}
+		}
+		if !ok {
+			return fmt.Errorf("flush barrier: marker commit did not reach the remote within 30 s")
+		}
+	}
+	return nil
+}
+
+func (w *world) rawRemoteHead(branch string) (string, error) {
+	ctx := context.Background()
+	ddb, err := doltdb.LoadDoltDB(ctx, types.Format_DOLT, "file://"+w.remoteDir, w.prim.DEnv.FS)
+	if err != nil {
+		return "", err
+	}
+	if err := ddb.Rebase(ctx); err != nil {
+		return "", err
+	}
+	brs, err := ddb.GetBranchesWithHashes(ctx)
+	if err != nil {
+		return "", err
+	}
+	for _, b := range brs {
+		if b.Ref.GetPath() == branch {
+			return b.Hash.String(), nil
+		}
+	}
+	return "", nil
 }
 
 func (w *world) close() {
@@ -230,7 +296,9 @@ func (w *world) replicaHeads() (map[string]any, string, error) {
 	}
 	out := map[string]any{}
 	for _, r := range rows {
-		out["b:"+fmt.Sprint(r[0])] = w.idOf(fmt.Sprint(r[1]))
+		if fmt.Sprint(r[0]) != "zzsync" {
+			out["b:"+fmt.Sprint(r[0])] = w.idOf(fmt.Sprint(r[1]))
+		}
 	}
 	trows, err := w.rs.Query("select tag_name, tag_hash from dolt_tags order by tag_name")
 	if err != nil {
@@ -247,7 +315,9 @@ func (w *world) primaryHeads() map[string]any {
 	rows, _ := w.ps.Query("select name, hash from dolt_branches order by name")
 	out := map[string]any{}
 	for _, r := range rows {
-		out["b:"+fmt.Sprint(r[0])] = w.idOf(fmt.Sprint(r[1]))
+		if fmt.Sprint(r[0]) != "zzsync" {
+			out["b:"+fmt.Sprint(r[0])] = w.idOf(fmt.Sprint(r[1]))
+		}
 	}
 	trows, _ := w.ps.Query("select tag_name, tag_hash from dolt_tags order by tag_name")
 	for _, r := range trows {
@@ -272,7 +342,9 @@ func (w *world) remoteHeadsSQL() (map[string]any, error) {
 		return nil, err
 	}
 	for _, b := range brs {
-		out["b:"+b.Ref.GetPath()] = w.idOf(b.Hash.String())
+		if b.Ref.GetPath() != "zzsync" {
+			out["b:"+b.Ref.GetPath()] = w.idOf(b.Hash.String())
+		}
 	}
 	tags, err := ddb.GetTagsWithHashes(ctx)
 	if err != nil {
@@ -387,6 +459,11 @@ func (w *world) step(a string, args map[string]any) (obs map[string]any) {
 	default:
 		res, errText = "err", "unknown action "+a
 	}
+	if w.async && primary && res == "ok" {
+		if err := w.barrier(); err != nil {
+			obs["barrier"] = err.Error()
+		}
+	}
 	n, text := sink.take()
 	obs["res"] = res
 	obs["warned"] = n > 0
@@ -411,7 +488,7 @@ func (w *world) step(a string, args map[string]any) (obs map[string]any) {
 }
 
 func runCase(c map[string]any) common.Result {
-	w, err := newWorld()
+	w, err := newWorld(c["async"] == true)
 	if err != nil {
 		if w != nil {
 			w.close()
@@ -428,6 +505,9 @@ func runCase(c map[string]any) common.Result {
 		args, _ := st["args"].(map[string]any)
 		obs := w.step(a, args)
 		observed = append(observed, map[string]any{"a": a, "obs": obs})
+		if b, bad := obs["barrier"]; bad {
+			return common.Result{"ok": false, "inconclusive": "step " + fmt.Sprint(i) + ": " + fmt.Sprint(b)}
+		}
 		exp, has := st["exp"].(map[string]any)
 		if !has {
 			continue
